@@ -76,6 +76,27 @@ def domains(draw, max_d=3, extreme=False, min_d=1, bigint=False):
     return [draw(interval(extreme=extreme, bigint=bigint)) for _ in range(d)]
 
 
+@st.composite
+def aliased(draw, dom, prob_den=6):
+    """(domain, alias flag): in dimension >= 2, one time in ``prob_den`` every axis gets the bounds of the first one
+    and the flag asks the harness to hand the library ONE shared list object for all of them - the idiomatic
+    ``[[0, 1]] * d`` - which is a perfectly legal way of writing a box (round 9 of DESIGN 8.2)."""
+    if len(dom) >= 2 and draw(st.integers(0, prob_den - 1)) == 0:
+        return [list(dom[0]) for _ in dom], True
+    return dom, False
+
+
+def materialise_domain(case):
+    """The domain object handed to the library: a fresh deep copy; with ``alias_axes`` all axes are one list object."""
+    import copy
+
+    dom = copy.deepcopy(case["domain"])
+    if case.get("alias_axes") and len(dom) >= 2 and all(
+            [type(v) for v in ax] == [type(v) for v in dom[0]] and ax == dom[0] for ax in dom):
+        return [dom[0]] * len(dom)
+    return dom
+
+
 # ------------------------------------------------------------------- partitions
 
 
@@ -148,8 +169,12 @@ def rewards(draw, laws=None, d=1, max_over=4, T=100):
                 st.floats(-10, 10, allow_nan=False)))]
             for _ in range(n_over)
         ]
-    if draw(st.integers(0, 4)) == 0:
+    k = draw(st.integers(0, 9))
+    if k < 2:
         spec["npfloat"] = True
+    elif k == 2:
+        # integral rewards arrive as Python ints (0/1 feedback written as ints is the commonest reward there is)
+        spec["inttype"] = True
     return spec
 
 
@@ -287,7 +312,7 @@ def run_case(draw, names=ALGOS, max_d=3, n_range=(100, 300), laws=None, T_max=No
              midpoint_bias=False, max_K=5, full_T_prob=0.34, vroom_nonbinary_ok=False, **akw):
     """A complete algorithm-run case."""
     name = draw(st.sampled_from(list(names)))
-    dom = draw(domains(max_d=max_d, extreme=extreme))
+    dom, alias = draw(aliased(draw(domains(max_d=max_d, extreme=extreme))))
     d = len(dom)
     bco = binary_children_only or name == "VROOM_binary"
     pspec = draw(partitions(max_K=max_K, binary_children_only=bco, d=d, midpoint_bias=midpoint_bias))
@@ -313,4 +338,6 @@ def run_case(draw, names=ALGOS, max_d=3, n_range=(100, 300), laws=None, T_max=No
         "T": T,
         "reward": draw(rewards(laws=laws, d=d, T=T)),
     }
+    if alias:
+        case["alias_axes"] = True
     return case
